@@ -24,7 +24,7 @@ import (
 
 var c04Selectors = []string{"matchLabels", "In", "NotIn", "Exists", "generated", "empty"}
 var c04Labels = []string{"match", "partial", "none"}
-var c04Owners = []string{"none", "ours", "other-controller", "ours+extra", "other+extra", "extra-only"}
+var c04Owners = []string{"none", "ours", "other-controller", "ours+extra", "other+extra", "extra-only", "plain-ours"}
 var c04Live = []string{"same", "deleting", "replaced-uid", "gone"}
 
 type c04Case struct {
@@ -142,6 +142,9 @@ func c04Run(c c04Case) []mc.Finding {
 		kit.Owners(obj, extra, other)
 	case "extra-only":
 		kit.Owners(obj, extra)
+	case "plain-ours":
+		// nobody controls it, but it already lists the parent as a plain owner (e.g. added by hand for garbage collection)
+		kit.Owners(obj, kit.OwnerRef(kit.Thing, "p", "puid", false))
 	}
 	if c.ChildDeleting {
 		kit.Deleting(kit.Finalizers(obj, "ex.io/hold"))
@@ -284,7 +287,7 @@ func c04Run(c c04Case) []mc.Finding {
 			after = r.Post
 		}
 	}
-	orphan := c.Owners == "none" || c.Owners == "extra-only"
+	orphan := c.Owners == "none" || c.Owners == "extra-only" || c.Owners == "plain-ours"
 	cachedDeleting := c.CachedParent == "deleting"
 	liveOK := c.LiveParent == "same" && !cachedDeleting
 	switch {
@@ -390,9 +393,47 @@ func c04Run(c c04Case) []mc.Finding {
 		}
 	}
 	// every child created carries exactly one controller reference: ours
+	var created []string
 	for _, r := range w.Sim.Log {
 		if r.Kind == kit.Leaf && r.Verb == "create" && r.Code == 201 && kit.ControllerUID(r.Post) != "puid" {
 			bad("created-without-controller-ref", "created child %s lacks our controller reference", r.Name)
+		}
+		if r.Kind == kit.Leaf && r.Verb == "create" && r.Code == 201 {
+			created = append(created, r.Name)
+		}
+	}
+	// ... and keeps it: the next sync (caches caught up, same hook answer) neither gives the child up nor
+	// drops a reference somebody else added to it in the meantime
+	if len(created) > 0 && err == nil && c.LiveParent == "same" && c.CachedParent == "alive" {
+		for _, n := range created {
+			w.Sim.Edit(kit.Leaf, "n1", n, func(o map[string]interface{}) {
+				refs := append(kit.L{}, kit.List(o, "metadata", "ownerReferences")...)
+				kit.Field(o, append(refs, kit.OwnerRef(kit.Other, "x", "xuid", false)), "metadata", "ownerReferences")
+			})
+		}
+		w.DeliverAll()
+		if _, p2, stack2 := w.syncKey("n1/p"); p2 != nil {
+			bad("panic", "second sync: %v\n%s", p2, stack2)
+			return f
+		}
+		for _, n := range created {
+			o := w.Sim.Get(kit.Leaf, "n1", n)
+			if o == nil {
+				bad("created-child-gone", "child %s created by the first sync is gone after the second", n)
+				continue
+			}
+			if kit.ControllerUID(o) != "puid" {
+				bad("created-child-given-up", "child %s created by the first sync is no longer controlled by the parent after the second (owner references %v)", n, kit.Get(o, "metadata", "ownerReferences"))
+			}
+			keeper := false
+			for _, r := range kit.List(o, "metadata", "ownerReferences") {
+				if kit.Str(r, "uid") == "xuid" {
+					keeper = true
+				}
+			}
+			if !keeper {
+				bad("foreign-reference-dropped", "the owner reference another party added to child %s was dropped by the second sync", n)
+			}
 		}
 	}
 	return f
